@@ -298,6 +298,13 @@ def build():
                         F::distinct();
                         creators = inc_if(inc_if(inc_if(inc_if(creators, o_cr, out.0), b_cr, b.0), a_cr, a.0), c_cr, c_wid.0);
                         // alias cases the code has no guard for (each is the recorded finding C09-alias-double-creator):
+                        // C10 / C09: the first row that mentions a free slot (a hint output, a private input) must create it -- for `b` as for `a` and `c` -- unless `a` or `c` of this very row does
+                        let ghost b_free_first_use = (b.0 as int >= def0.len() || !def0[b.0 as int]) && (hint_output_wids@.contains(b.0) || private_input_wids@.contains(b.0));
+                        assert(b_free_first_use ==> (b_cr || (a_cr && a.0 == b.0) || (c_cr && c_wid.0 == b.0))); // @@A:a_free_slot_first_read_as_b_gets_its_creator_in_this_row
+                        // the recorded inputs of that finding: b is a private input at its first use, or the row solves for b (its out slot is given). Any OTHER way for b to share the creator role is not covered by it:
+                        let ghost known_b_shape = private_input_wids@.contains(b.0) || !o_cr || hint_output_wids@.contains(out.0) || private_input_wids@.contains(out.0);
+                        assert(!(a_cr && b_cr && a.0 == b.0 && !known_b_shape)); // @@A:a_and_b_are_both_creators_of_one_slot_only_in_the_recorded_alias_shapes
+                        assert(!(c_cr && b_cr && c_wid.0 == b.0 && !known_b_shape)); // @@A:c_and_b_are_both_creators_of_one_slot_only_in_the_recorded_alias_shapes
                         assert(!(a_cr && b_cr && a.0 == b.0)); // @@A:H_a_and_b_not_both_creators_of_one_slot
                         assert(!(b_cr && o_cr && b.0 == out.0)); // @@A:H_b_and_out_not_both_creators_of_one_slot
                         assert(!(c_cr && b_cr && c_wid.0 == b.0)); // @@A:H_c_and_b_not_both_creators_of_one_slot
